@@ -1,13 +1,14 @@
 (* Trusted glue for the stamp package (C03): parses one history per line, runs the
    extracted model step by step, prints one canonical token per event.
 
-   hist <max_completed> <event>*
+   hist <max_completed> <activatable names: hex,hex,... | -> <event>*
      C.<c>            connect          D.<c>   disconnect
      S.<c>.<hex>      client c writes the message <hex> (one complete valid message)
+     A.<hex name>.<hex error name>   the process started for <name> failed
    result, one token per event:
      "!" ill-formed event, "?invalid" message does not decode, "F.<fault>" (stops the run), or
      items joined by "+":  c<c>  g<c>  i<c>:<hex name>  e<origin>/<scope>/<hex message>
-       origin: c<c> | d | l       scope: r<c> | m | t<c> | b | s<c> | x<c>; for a big-endian message addressed to the driver a
+       origin: c<c> | d | l       scope: r<c> | m | t<c> | b | s<c> | x<c> | k<c> (kept message released); for a big-endian message addressed to the driver a
        second hex string follows: the same message converted to little endian
    (TRecv items are not printed.)
    mint <major> <minor> <hex name>*   ->  "<hex name> <major> <minor>" | "fault.<kind>"
@@ -42,6 +43,7 @@ let parse_event (tok : string) : event option =
   match String.split_on_char '.' tok with
   | ["C"; c] -> Some (EConnect (ni c))
   | ["D"; c] -> Some (EDisconnect (ni c))
+  | ["A"; nm; en] -> Some (EActFail (bytes_of_hex nm, bytes_of_hex en))
   | ["S"; c; h] ->
       (match spec_decode_message (bytes_of_hex h) with
        | Some (m, total) when int_of_n total = String.length h / 2 -> Some (ESend (ni c, m))
@@ -52,6 +54,7 @@ let show_origin = function OClient c -> "c" ^ string_of_int (int_of_n c) | ODriv
 let show_scope = function
   | SRouted c -> "r" ^ string_of_int (int_of_n c) | SMonitors -> "m" | STo c -> "t" ^ string_of_int (int_of_n c)
   | SBroadcast -> "b" | SSelf c -> "s" ^ string_of_int (int_of_n c) | SMatches c -> "x" ^ string_of_int (int_of_n c)
+  | SReleased c -> "k" ^ string_of_int (int_of_n c)
 
 let show_item = function
   | TConn c -> Some ("c" ^ string_of_int (int_of_n c))
@@ -66,8 +69,9 @@ let show_item = function
   | TRecv (_, _) -> None
 
 let () =
-  reg "hist" (fun (maxc :: evs) ->
+  reg "hist" (fun (maxc :: acts :: evs) ->
     let maxc = ni maxc in
+    let acts = if acts = "-" then [] else List.map bytes_of_hex (String.split_on_char ',' acts) in
     let b = ref bus0 in
     let stopped = ref false in
     String.concat " " (List.map (fun tok ->
@@ -75,7 +79,7 @@ let () =
       match parse_event tok with
       | None -> "?invalid"
       | Some e ->
-          (match x_step maxc !b e with
+          (match x_step maxc acts !b e with
            | Ill -> "!"
            | Fault f -> stopped := true; "F." ^ fault_name f
            | Ok (b', tr) ->
